@@ -158,6 +158,7 @@ def correspondence(ctx):
     # the UTC branch of the model (distinct tzinfo objects) against the implementation
     with L.process_tz("America/New_York"):
         nd = ctx.budget(6000, 60000)
+        genreq, genexp = [], []
         for a, b, offs, model in distinct_pairs(ctx, ctx.subrng("corr-distinct"), nd):
             r = impl_diff(a, b)
             ctx.count("corr_distinct_" + (r.split()[1] if r.startswith("err") else "ok"))
@@ -165,7 +166,12 @@ def correspondence(ctx):
                 ctx.count("corr_distinct_offset_changes_in_span")
             if r != model:
                 ctx.mismatch("rd.diffo", diffo_request(a, b, offs), r, model)
+            genreq.append(diffo_request(a, b, offs).replace("rd.diffo", "rdgen.diffo", 1)); genexp.append(r)
             ctx.traces += 1
+        for q, e, g in zip(genreq, genexp, ctx.driver(genreq)):
+            if e != g:
+                ctx.mismatch("rdgen.diffo", q, e, g)
+        ctx.traces += len(genreq)
     n = ctx.budget(50000, 400000)
     reqs, exp = [], []
     slow = 0
@@ -189,6 +195,8 @@ def correspondence(ctx):
         ctx.count("corr_diff_" + (r.split()[1] if r.startswith("err") else "ok"))
         if i % 4 == 0:
             reqs.append("rd.diffn 1 %s %s" % (L.t_wire(a), L.t_wire(b))); exp.append(r)
+    reqs, exp = L.with_generated(reqs, exp)
+    ctx.count("corr_generated_requests", sum(1 for q in reqs if q.startswith("rdgen.")))
     got = ctx.driver(reqs)
     for q, e, g in zip(reqs, exp, got):
         if e != g:
